@@ -111,7 +111,9 @@ Sets WITH augment statements:
     two such trees have `SameIO`; `include_eq_inline_augments_norpc_reduced`: for such split sets
     `IncludeEqInlineAugments` follows from `LoopsRelatedCore` alone.  Kernel-checked instance WITH augments: `Ex4`
     (`Ex4C.core`: no error, nothing pending, owner's tree `SameTop σ` the unsplit module's — `SameTop` is decidable,
-    Lemmas/IncludeAugDec.lean), from which the conclusion is obtained through the proved chain.
+    Lemmas/IncludeAugDec.lean), from which the conclusion is obtained through the proved chain;
+    `include_eq_inline_augments_norpc_checked`: the same with the core as a decidable hypothesis
+    (`Lemmas.IncludeAugDec.CoreCheck`), so that every hypothesis but `IsSplitOf` is decidable.
   Still missing for `IncludeEqInlineAugments`, i.e. for `LoopsRelatedCore` (+ `SameIO` for sets with rpc / action
   nodes): (A) the pending ENTRIES of the owner's
   row equal the unsplit module's up to `ren σ` (`context_independence` gives it per statement once the state
@@ -193,7 +195,7 @@ statements), `include_eq_inline_partial` + `include_paths` (the same sets; `R` w
 `include_eq_inline_witness`, `dump_of_path_view` / `dump_of_view` (E), `fixChoice_path_view` (F),
 `include_dump_in_unsplit_order`, `include_clean_in_unsplit_order`, `include_dump_of_related_trees`,
 `include_eq_inline_augments_reduced`, `include_io_shape_along_loop` (I, first half, all sets), `include_no_rpc_along_loop`,
-`include_eq_inline_augments_norpc_reduced`, `include_eq_inline_augments_reduced_sameIO`.
+`include_eq_inline_augments_norpc_reduced`, `include_eq_inline_augments_norpc_checked`, `include_eq_inline_augments_reduced_sameIO`.
 The statement with the hypotheses under which those results apply is `IncludeEqInlineAugments`.  What is
 missing for it: (1) the augment loop
 visits the trees in an order that the additional (augment-free) submodule trees change (swap-remove
@@ -1596,5 +1598,31 @@ example : IncludeEqInlineAugments Ex4.sp Ex4.R Ex4.R' {} Ex.plug Ex.plug := by
   exact Lemmas.IncludeAugIO.sameIO_of_noIO
     (Lemmas.IncludeAugIO.noIO_loop Ex4.R' {} Ex.plug h0 _ _ (_, ts) (Lemmas.IncludeAugCompose.mem_of_tree? hts))
     (Lemmas.IncludeAugIO.noIO_loop Ex4.R' {} Ex.plug h0 _ _ (_, tu) (Lemmas.IncludeAugCompose.mem_of_tree? htu))
+
+/-- **include_eq_inline_augments_norpc_checked.**  The same with the open piece as a decidable check: for a split set
+without rpc / action nodes (`NoIOStart`), `IncludeEqInlineAugments` holds whenever `Lemmas.IncludeAugDec.CoreCheck`
+does — the loop over the split set in the module order of the unsplit set records no error, leaves nothing pending
+and leaves the owner's tree `SameTop σ` the tree the unsplit set's loop leaves.  Every hypothesis but `IsSplitOf`
+(executable conditions of its own) is decidable; what the check leaves out and the theorem supplies: the other
+module order of the real run, `FixChoice`, the retry rounds and the reporting sweep, and the dump (namespaces,
+read-only status, instantiating modules over the two registries). -/
+theorem include_eq_inline_augments_norpc_checked (s : Split) (R R' : Registry) (opts : Opts) (plug plug' : Plug)
+    (h : IsSplitOf s R R' plug plug') (hL : Lemmas.Fuel.LoadedShape R') (hpos : Lemmas.Bridge.AugPosDistinct R')
+    (hplain : Lemmas.Bridge.AugArgsPlain R') (h0 : Lemmas.IncludeAugIO.NoIOStart R' opts plug')
+    (hc : Lemmas.IncludeAugDec.CoreCheck s R R' opts plug plug') :
+    IncludeEqInlineAugments s R R' opts plug plug' :=
+  include_eq_inline_augments_norpc_reduced s R R' opts plug plug' h hL hpos hplain h0
+    (fun _ _ => Lemmas.IncludeAugDec.core_of_check hc)
+
+open Goyang.Lemmas.IncludeAugK Goyang.Lemmas.IncludeAugCompose Goyang.Lemmas.IncludeAugDec in
+/-- All hypotheses of `include_eq_inline_augments_norpc_checked` hold of `Ex4` (kernel-evaluated; the check through the
+kernel-evaluable copy of the loop, Lemmas/IncludeAugK.lean). -/
+example : IncludeEqInlineAugments Ex4.sp Ex4.R Ex4.R' {} Ex.plug Ex.plug := by
+  have hc : CoreCheck Ex4.sp Ex4.R Ex4.R' {} Ex.plug Ex.plug := by
+    unfold CoreCheck loopU
+    rw [augmentLoop_eqK, afterLoop_eqK]
+    decide +kernel
+  exact include_eq_inline_augments_norpc_checked Ex4.sp Ex4.R Ex4.R' {} Ex.plug Ex.plug Ex4.isSplit (by decide +kernel)
+    (by decide +kernel) Ex4E.argsPlain (by decide +kernel) hc
 
 end Goyang.Props.C13Include
